@@ -176,8 +176,12 @@ def generate(run_seed, tier='quick'):
     n = int(rng.randint(1, max_it + 1)) if rng.randint(3) else int(rng.randint(1, 9))
     trainer_kwargs = {}
     if kind == 'cwmm':
+        # spline_markers stays at its default: the Watson concentration update
+        # is only as exact as the spline (worst relative decrease 3e-12 with
+        # 1000 markers, 4e-11 with 400, 2e-7 -- above tolerance -- with 100),
+        # and the property quantifies over exact / MM M-steps only
         trainer_kwargs = _choice(rng, [{}, {}, {'max_concentration': 100},
-                                       {'spline_markers': 400}])
+                                       {'max_concentration': 300}])
     ops = []
     # earlier history on the shared trainer
     for _ in range(int(_choice(rng, [0, 0, 1, 2, 3, 5]))):
@@ -342,6 +346,7 @@ def execute(program):
 
     # state per seg op index
     returned = {}      # op index -> (model, L, guarded)
+    maxes = {}
     comparisons = 0
     sched = []
 
@@ -408,6 +413,9 @@ def execute(program):
                     comparisons += 1
                     tr.count('monotonicity_comparisons')
                     lp = state['L_prev']
+                    maxes['relative_decrease'] = max(
+                        maxes.get('relative_decrease', 0.0),
+                        (lp - L) / (REL_TOL * (1 + abs(lp))))
                     if L < lp - REL_TOL * (1 + abs(lp)):
                         tr.violations.append({
                             'property': 'C02', 'oracle': 'monotone',
@@ -512,6 +520,7 @@ def execute(program):
     return {
         'digest': digest, 'signature': signature,
         'nontrivial': comparisons >= 2,
+        'maxes': maxes,
         'counters': tr.counters,
         'sets': {k: sorted(v) for k, v in tr.sets.items()},
         'violations': tr.violations,
